@@ -1,4 +1,6 @@
 //! unit `wire`, C20: the same harness as vh_wire built with feature `py` (py-bindings of the
 //! repository crates + embedded CPython through pyo3), so that the JSON ops go through the real
 //! to_json_dict / from_json_dict.  Build: cargo build --release --offline --features hooks,py --bin vh_wirejson
-include!("vh_wire.rs");
+#![allow(clippy::all)]
+#![allow(dead_code, unused_macros, unused_imports)]
+include!("../wire_main.inc.rs");
